@@ -60,7 +60,12 @@ Section Main.
           let targets := if is_all (mc_builders c) && is_all (mc_apps c) then None
                          else Some (map bi_out (filter (selected_build c) builds)) in
           let argv := ninja_argv file (Nat.ltb 0 (mc_verbose c)) targets (mc_jobs c) (Some (mc_keep_going c)) in
-          {| o_actions := [ANinja argv]; o_exit := if ninja_ok argv then 0 else 1 |}
+          (* an empty explicit target list would make ninja build every default target of the file: a
+             selection that matches no configured build starts no ninja (after fix 7aa44f9) *)
+          match targets with
+          | Some [] => {| o_actions := []; o_exit := 0 |}
+          | _ => {| o_actions := [ANinja argv]; o_exit := if ninja_ok argv then 0 else 1 |}
+          end
     | Some name =>
         let matching := filter (fun b => selected_build c b &&
                                          match task_of_build name b with Some _ => true | None => false end) builds in
